@@ -67,9 +67,16 @@ type SimSigner struct {
 	// OnSign, if set, runs inside Sign before the signature is produced
 	// (re-entrant use of the object that is being signed with).
 	OnSign func()
+	// Latency is how long (fake time) the remote signing service takes.
+	Latency time.Duration
+	// KeySpecLatency is how long every KeySpec() call takes.
+	KeySpecLatency time.Duration
 }
 
 func (s *SimSigner) KeySpec() (signature.KeySpec, error) {
+	if s.KeySpecLatency > 0 {
+		time.Sleep(s.KeySpecLatency)
+	}
 	if s.Mode == RSKeySpecError {
 		return signature.KeySpec{}, errors.New("sim: remote signer cannot describe its key")
 	}
@@ -82,6 +89,9 @@ func (s *SimSigner) Sign(payload []byte) ([]byte, []*x509.Certificate, error) {
 	switch s.Mode {
 	case RSError:
 		return nil, nil, errors.New("sim: remote signer unavailable")
+	}
+	if s.Latency > 0 {
+		time.Sleep(s.Latency)
 	}
 	if s.OnSign != nil {
 		f := s.OnSign
